@@ -24,6 +24,7 @@ type pCmdSpec struct {
 	Batch   *[]*pCmdSpec `json:"batch,omitempty"`
 	Seq     *[]*pCmdSpec `json:"seq,omitempty"`
 	TickUs  *int         `json:"tick_us,omitempty"`
+	Cache   bool         `json:"cache,omitempty"` // build the command once and hand out the same value every time (a command stored in the model)
 	Reuse   bool         `json:"reuse,omitempty"` // batch: build the argument list in a scratch buffer shared by all such batches
 	Msg     *pMsgSpec    `json:"msg,omitempty"`
 }
@@ -97,6 +98,7 @@ type pScenario struct {
 	Gomaxprocs int              `json:"gomaxprocs,omitempty"`
 	ParallelOK bool             `json:"parallel_ok,omitempty"`
 	Isolate    bool             `json:"isolate,omitempty"` // run in a child harness process
+	Writes     bool             `json:"writes,omitempty"`  // report the time and size of every Write call on the output
 	Opts       pOpts            `json:"opts"`
 	Input      pInput           `json:"input"`
 	Ctx        bool             `json:"ctx,omitempty"`
@@ -135,24 +137,25 @@ type pAPI struct {
 }
 
 type pResult struct {
-	ID              int      `json:"id"`
-	Events          []pEvent `json:"events"`
-	RunStarted      bool     `json:"run_started"`
-	RunReturned     bool     `json:"run_returned"`
-	RunErr          string   `json:"run_err"`
-	RunErrText      string   `json:"run_err_text"`
-	FinalVer        int      `json:"final_ver"`
-	RunPanicked     string   `json:"run_panicked,omitempty"`
-	API             []pAPI   `json:"api"`
-	SendersDone     []bool   `json:"senders_done"`
-	ScriptTimeout   *int     `json:"script_timeout"`
-	Output          []int    `json:"output"`
-	OutputAtReturn  int      `json:"output_at_return"`
-	PausedAtEnd     []string `json:"paused_at_end,omitempty"`
-	Errors          []string `json:"errors,omitempty"`
-	Crashed         bool     `json:"crashed,omitempty"`
-	CrashText       string   `json:"crash_text,omitempty"`
-	WallMs          int64    `json:"wall_ms"`
-	Stuck           string   `json:"stuck,omitempty"`
-	TermiosRestored *bool    `json:"termios_restored,omitempty"`
+	ID              int        `json:"id"`
+	Events          []pEvent   `json:"events"`
+	RunStarted      bool       `json:"run_started"`
+	RunReturned     bool       `json:"run_returned"`
+	RunErr          string     `json:"run_err"`
+	RunErrText      string     `json:"run_err_text"`
+	FinalVer        int        `json:"final_ver"`
+	RunPanicked     string     `json:"run_panicked,omitempty"`
+	API             []pAPI     `json:"api"`
+	SendersDone     []bool     `json:"senders_done"`
+	ScriptTimeout   *int       `json:"script_timeout"`
+	Output          []int      `json:"output"`
+	OutputAtReturn  int        `json:"output_at_return"`
+	PausedAtEnd     []string   `json:"paused_at_end,omitempty"`
+	Errors          []string   `json:"errors,omitempty"`
+	Crashed         bool       `json:"crashed,omitempty"`
+	CrashText       string     `json:"crash_text,omitempty"`
+	WallMs          int64      `json:"wall_ms"`
+	Stuck           string     `json:"stuck,omitempty"`
+	TermiosRestored *bool      `json:"termios_restored,omitempty"`
+	Writes          [][2]int64 `json:"writes,omitempty"` // (microseconds since the scenario began, bytes) per Write call on the output, when asked for
 }
